@@ -281,7 +281,7 @@ def symbols_of(e):
     """names of uninterpreted constants/functions occurring in a term (cached by ast id)."""
     i = e.get_id()
     if i in _sym_cache:
-        return _sym_cache[i]
+        return _sym_cache[i][1]
     out = set()
     seen = set()
     stack = [e]
@@ -298,7 +298,7 @@ def symbols_of(e):
             if d.kind() == z3.Z3_OP_UNINTERPRETED:
                 out.add(d.name())
             stack.extend(x.children())
-    _sym_cache[i] = out
+    _sym_cache[i] = (e, out)  # keep the term alive: z3 recycles ast ids of freed terms
     return out
 
 
@@ -365,6 +365,19 @@ def discharge(ob: Obligation, rlimit=Z3_RLIMIT, use_cvc5=True):
                 continue
             if r == z3.sat:
                 reduced_model = model_to_dict(s.model())
+                # the dropped hypotheses share no symbol with the query, so the counter-model extends to
+                # them unless they are contradictory by themselves: check their quantifier-free part
+                from .core import _has_quantifier
+                qf = [h for h in full_hyps if not _has_quantifier(h)]
+                r2, s2 = _z3_check(qf, goal, {}, 3_000_000, ob.hints)
+                if r2 == z3.unsat:
+                    continue
+                if r2 == z3.sat:
+                    m = model_to_dict(s2.model())
+                    m["_subgoal"] = str(goal)[:300]
+                    if len(qf) < len(full_hyps):
+                        m["_note"] = "counter-model of the query without its quantified hypotheses (pre-state well-formedness of unrelated containers)"
+                    return "sat", "z3", time.time() - t0, m
         # stage 2: all hypotheses, solver portfolio
         verdict = None
         last = None
@@ -375,7 +388,9 @@ def discharge(ob: Obligation, rlimit=Z3_RLIMIT, use_cvc5=True):
                 verdict = "unsat"
                 break
             if r == z3.sat:
-                return "sat", "z3", time.time() - t0, model_to_dict(s.model())
+                m = model_to_dict(s.model())
+                m["_subgoal"] = str(goal)[:300]
+                return "sat", "z3", time.time() - t0, m
             if reduced_model is not None and rl >= 6_000_000:
                 break  # the reduced query already has a counter-model; do not burn the whole portfolio
         if verdict == "unsat":
